@@ -827,6 +827,15 @@ impl<T: Float> Unpaired<T> {
         let (na, nb) = (n_a.try_f64("n_a")?, n_b.try_f64("n_b")?);
         let effective_dof = // $ \frac{ (s_a^a / n_a + s_b^2 / n_b)^2 }{ \frac{1}{n_a+1} \left(\frac{s_a^2}{n_a}\right)^2 + \frac{1}{n_b+1} \left(\frac{s_b^2}{n_b}\right)^2 } - 2$
             (va + vb) * (va + vb) / (va * va / (na + 1.) + vb * vb / (nb + 1.)) - 1. - 1.;
+        // the formula never yields less than $\min(n_a, n_b) - 1$ degrees of freedom; rounding can, and for
+        // tiny spreads (e.g., around 1e-81) the underflow of the fourth powers can even yield zero or
+        // a negative number, for which the t distribution is undefined
+        let dof_min = na.min(nb) - 1.;
+        let effective_dof = if effective_dof < dof_min {
+            dof_min
+        } else {
+            effective_dof
+        };
 
         let (lo, hi) = stats::interval_bounds(
             confidence,
